@@ -132,6 +132,26 @@ Theorem cl_data_never_exceeds : forall n r evs, r <= n ->
   match data_agree (Some n) r evs with Open t | Complete t => t <= n | Reset => True end.
 Proof. intros n r evs H. exact (data_agree_never_exceeds (Some n) r evs n eq_refl H). Qed.
 
+(** An upload the client CANCELS (RST_STREAM) before its END_STREAM is never
+    complete, whatever was declared and whatever DATA came before or comes
+    after: the backend is never shown the end of a request the client did not
+    finish (HTTP/1.1: no last chunk / declared length never reached and the
+    connection is not reused, [parked_connection_has_no_unfinished_request];
+    HTTP/2: RST_STREAM, [h2_backend_stream_never_left_half_open]). *)
+Theorem cancelled_upload_is_never_complete : forall declared r pre post,
+  forallb (fun e => match e with Data _ false => true | _ => false end) pre = true ->
+  data_agree declared r (pre ++ Cancel :: post) = Reset.
+Proof. exact data_agree_cancelled. Qed.
+
+(** [ConnectionH2::end_stream], client side: when no RST_STREAM is queued for a
+    stream that ends on an HTTP/2 backend connection, that stream is closed in
+    both directions or was reset before. *)
+Theorem h2_backend_stream_never_left_half_open : forall re qe ar,
+  h2_rst_on_end re qe ar = false -> (re = true /\ qe = true) \/ ar = true.
+Proof.
+  intros re qe ar H. unfold h2_rst_on_end in H. destruct re, qe, ar; cbn in H; try discriminate; auto.
+Qed.
+
 (* ------------------------------------------------------------------ *)
 (** Request trailers ([pkawa::handle_trailer]).  A trailer NAME is an HPACK
     literal: any byte string.  Whatever it is, a name that starts with ':' — a
@@ -257,6 +277,13 @@ Example trailers_nonvacuous :
   option_map (@List.length request)
     (strict_h1 (B "POST / HTTP/1.1" ++ crlf ++ B "Host: x" ++ crlf ++ B "Transfer-Encoding: chunked" ++ crlf ++ crlf ++
                 B "0" ++ crlf ++ serialize_trailers [(B "x-t", B "1"); (B "grpc-status", B "0")])) = Some 1%nat.
+Proof. vm_compute. repeat split; reflexivity. Qed.
+
+Example cancel_nonvacuous :
+  data_agree (Some 400) 0 [Data 100 false; Cancel] = Reset /\
+  data_agree None 0 [Data 100 false; Cancel; Data 0 true] = Reset /\
+  data_agree None 0 [Data 100 false; Data 0 true] = Complete 100 /\
+  h2_rst_on_end true false false = true /\ h2_rst_on_end true true false = false /\ h2_rst_on_end false false true = false.
 Proof. vm_compute. repeat split; reflexivity. Qed.
 
 (** the park rule: the defect fixed in /repo (the request side was not consulted)
